@@ -439,7 +439,63 @@ func runGuards(repo string) []skel {
 			}
 			return true
 		})
-		out = append(out, entry, check)
+		// order of the checks in the interpreter loop (the `for` statement of Run)
+		order := skel{name: "Run.loopOrder"}
+		ast.Inspect(fd.Body, func(n ast.Node) bool {
+			fs, ok := n.(*ast.ForStmt)
+			if !ok || fs.Cond != nil || fs.Init != nil {
+				return true
+			}
+			for _, st := range fs.Body.List {
+				tag := ""
+				switch v := st.(type) {
+				case *ast.AssignStmt:
+					t := norm(v)
+					switch {
+					case strings.Contains(t, ".GetOp("):
+						tag = "getop"
+					case strings.Contains(t, "$in.jumpTable["):
+						tag = "lookup"
+					case strings.Contains(t, ".execute("):
+						tag = "execute"
+					case strings.Contains(t, "constantGas"):
+						tag = "cost=constantGas"
+					}
+				case *ast.IfStmt:
+					c := norm(v.Cond)
+					if v.Init != nil {
+						c = norm(v.Init) + "; " + c
+					}
+					switch {
+					case strings.Contains(c, "== nil") && strings.Contains(c, "operation"):
+						tag = "nil->invalid-opcode"
+					case strings.Contains(c, "minStack"):
+						tag = "stack-validation"
+					case c == "$in.readOnly":
+						tag = "read-only"
+					case strings.Contains(c, "UseGas(operation.constantGas)"):
+						tag = "use-constant-gas"
+					case strings.Contains(c, "operation.memorySize != nil"):
+						tag = "memory-size"
+					case strings.Contains(c, "operation.dynamicGas != nil"):
+						tag = "dynamic-gas"
+					case strings.Contains(c, "memorySize > 0"):
+						tag = "resize"
+					case strings.Contains(c, "operation.returns"):
+						tag = "set-return-data"
+					case strings.Contains(c, "abort"):
+						tag = "abort-poll"
+					}
+				case *ast.SwitchStmt:
+					tag = "err/reverts/halts/pc++"
+				}
+				if tag != "" {
+					order.items = append(order.items, tag)
+				}
+			}
+			return false
+		})
+		out = append(out, entry, check, order)
 	}
 	return out
 }
